@@ -1,6 +1,8 @@
 package main
 
 import (
+	"go/token"
+	"go/types"
 	"fmt"
 	"sort"
 	"strings"
@@ -254,6 +256,48 @@ func runC15(r *Run) {
 		}
 	})
 	r.Check(okFirst, "R3", "app.NewHaqq#crisis-first-in-endblock", P.Pos(fnPos(nh)), "crisis is the first EndBlocker", "the crisis module is not the first module of SetOrderEndBlockers (invariants would be checked before other modules' end-block changes … or not against the block's final state as designed)")
+
+	// ---- R6: hooks are installed before a keeper is copied by value ----
+	r.Rule("R6", "PATH.hooks-before-copy: in NewHaqq, for every keeper type with a SetHooks method, each by-value copy of that keeper (a load of the keeper struct through a pointer, e.g. *app.StakingKeeper.Keeper handed to another module's constructor) is preceded by the SetHooks call — a copy taken earlier has nil hooks, so operations done through it (vesting's delegateVestedCoins) skip the distribution/slashing hooks and break the reference-count and can-withdraw invariants")
+	{
+		type hk struct {
+			t    types.Type
+			call ssa.CallInstruction
+		}
+		var hooks []hk
+		eachCall(nh, func(ci CallInfo) {
+			if ci.Name != "SetHooks" || ci.Static == nil || ci.Static.Signature.Recv() == nil {
+				return
+			}
+			hooks = append(hooks, hk{deref(ci.Static.Signature.Recv().Type()), ci.Instr})
+		})
+		r.Floor("R6", "SetHooks calls in NewHaqq", len(hooks), 4)
+		nCopies := 0
+		perType := map[string]int{}
+		for _, h := range hooks {
+			hname := namedPkgPath(h.t) + "." + namedName(h.t)
+			isSet := func(in ssa.Instruction) bool { return in == ssa.Instruction(h.call) }
+			eachInstr(nh, func(in ssa.Instruction) {
+				u, ok := in.(*ssa.UnOp)
+				if !ok || u.Op != token.MUL || !types.Identical(u.Type(), h.t) {
+					return
+				}
+				if _, isStruct := u.Type().Underlying().(*types.Struct); !isStruct {
+					return
+				}
+				// the copy made from SetHooks' own result is by construction after it
+				if c, ok := u.X.(*ssa.Call); ok && ssa.Instruction(c) == ssa.Instruction(h.call) {
+					return
+				}
+				nCopies++
+				perType[hname]++
+				w := PathQuery{Fn: nh, Block: isSet, Target: func(x ssa.Instruction) bool { return x == ssa.Instruction(u) }}.Search()
+				r.Check(w == nil, "R6", fmt.Sprintf("app.NewHaqq#copy-of-%s-%d", strings.TrimPrefix(hname, haqqMod+"/"), perType[hname]), P.Pos(instrPos(u)), "copied after SetHooks",
+					"the keeper "+hname+" is copied by value before its SetHooks call: the copy keeps nil hooks, and whoever holds it changes that module's state without the other modules' bookkeeping hooks", P.witness(w)...)
+			})
+		}
+		r.Count("R6 by-value keeper copies checked", nCopies)
+	}
 
 	// sibling clauses decided by the same rule code as C14 and C02
 	r.Import("R4/C14.", []string{"R2"}, runC14)
